@@ -15,6 +15,13 @@ tie    : translator T-omp (translate/t_omp.py) regenerates the region descriptor
 search : when an obligation fails, `find_conflict` (vm_compute) names two iterations and an entry both
          touch; the HLLE column model is evaluated for d = 1..6; the failing configuration is run on the
          implementation (repetitions, and a clang/libomp ThreadSanitizer+Archer build) to confirm.
+         A region in code the region table does not know (no region-level driver): the `if (...)` clause and the
+         loop bound give problem sizes on both sides of every threshold; the public-API methods whose headers
+         include the region's file are run through tapkee::embed (harness/c15_embed.cpp, fixed random stream)
+         under 1, 2, 8 and 16 threads; a difference from the 1-thread run is the replay.
+always : besides the generated cases, five-combination runs of large cases (triangulate with 3000 landmarks,
+         Barnes-Hut and exact t-SNE — a sentinel region: no OpenMP there on the pinned tree); thorough tier:
+         tapkee::embed of 8 methods + t-SNE (N = 1200) + Landmark MDS with 3036 landmarks + Landmark Isomap.
 """
 import hashlib
 import json
@@ -44,8 +51,15 @@ TRUSTED = [
     "private state at descriptor level is the translator's syntactic classification (PConst/PInit/PRestored); in the "
     "model PInit = written before read (reinit), PConst/PRestored = canonical between iterations (bernstein_restore); "
     "coverage proved for the symmetric gram fill, the HLLE columns and the triangulate scratch vector only",
-    "fibonacci_heap / reservable_priority_queue after clear() behave as freshly constructed (C16), and Dijkstra's "
-    "distances do not depend on tie-breaking in the heap (C04)",
+    "isomap's geodesic stage: the loop body is modelled as a program (Par_Iso_Model.iso_body) built on C04's step "
+    "functions and proved schedule-independent and equal to C04's shortest-path matrix (c15_iso_*_all_schedules); "
+    "one pass of the while loop reads / writes a SUPERSET of what the C++ pass touches (whole row k, s[], f[], heap, "
+    "neighbour table); the heap is C04's abstract bag (its tie to fibonacci_heap / priority_queue, and clear() == "
+    "freshly constructed, are C16 / C04); the shape obligation c15_gen_iso_shapes ties the generated descriptors to it",
+    "search phase for regions outside the region table: the map header -> public methods is computed from the "
+    "#include closure of include/tapkee/methods/*.hpp; sizes come from the region's `if (...)` clause; the oracle is "
+    "bitwise / tolerance comparison with the 1-thread run under a fixed random stream (std::srand + hook H1); t-SNE is "
+    "stopped after 51 iterations by an exception thrown from the harness' logger (TSNE::run has a constant 1000)",
     "OpenMP runtime: a critical section is atomic, the end of the parallel region is a barrier; data-race-free "
     "programs are sequentially consistent (C++/OpenMP memory model)",
     "Eigen's own threading is not modelled (results of Eigen kernels inside one iteration are taken as values)",
@@ -56,7 +70,8 @@ TRUSTED = [
 DENSE = ("iso", "isol", "mds", "mdsl", "diff", "tri", "cli")
 SPARSE = ("klle", "kltsa", "hlle")
 ITER = ("tsne",)      # sentinel: t-SNE has no OpenMP region on the pinned tree; 51 iterations of TSNE::run
-TOL_ITER = 1e-7       # relative to the largest entry of the map: a re-associated reduction moves it by ~1e-13
+TOL_ITER = 1e-7       # relative to the largest entry of the map: a race-free `reduction(+: sum_Q)` (mutant h5) moves the
+                      # map by up to 5e-10 relative after 51 iterations; the race of seeded/C17_1_r2 by 6e-3
 REGION_OF_FUNC = {   # descriptor name fragment -> harness region(s)
     "compute_shortest_distances_matrix#1": ["iso"], "compute_shortest_distances_matrix#2": ["isol"],
     "compute_distance_matrix#1": ["mdsl"], "compute_distance_matrix#2": ["mds"],
@@ -120,6 +135,12 @@ Lemma gen_hlle_is_expected :
 Proof. repeat split; vm_compute; reflexivity. Qed.
 Lemma gen_hlle_cover : forall d, hlle_cols_ok gen_hlle_step gen_hlle_col d = true.
 Proof. destruct gen_hlle_is_expected as (_ & Hs & Hc). exact (hlle_cols_cover_lin _ _ Hs Hc). Qed.
+From TK Require Import Par_Iso_Model.
+Definition is_iso_region (r : region) : bool := contains "compute_shortest_distances_matrix" (r_name r).
+Lemma gen_iso_shapes :
+  Forall (fun r => iso_shape r = true) (filter is_iso_region regions) /\\
+  List.length (filter is_iso_region regions) = 4%nat.
+Proof. split; [vm_compute; repeat constructor|vm_compute; reflexivity]. Qed.
 """
 
 
@@ -417,8 +438,8 @@ EMBED_TOL_SPARSE = 1e-4      # tolerance stream: null-space eigenproblems amplif
                              # triplet sums by their conditioning (measured: 1e-11 .. 5e-9)
 EMBED_TOL_RANDOMIZED = 1e-7  # randomized eigensolver (power iterations through Eigen's threaded products)
 EMBED_TOL_OTHER = 1e-6       # methods without an OpenMP region of their own (Eigen kernels only): gross differences
-EMBED_TOL_ITER = 1e-7        # t-SNE after ~50 iterations: a re-associated sum moves the logged error by ~1e-13 relative
-                             # (measured with a race-free parallel variant); a race moves it by 1e-4 .. 1e-2
+EMBED_TOL_ITER = 1e-7        # t-SNE after ~50 iterations: a re-associated sum (race-free parallel variant, mutant h5) moves
+                             # the logged error by < 1e-10 relative; the race of seeded/C17_1_r2 by 1e-4 .. 1e-2
 # public-API method (harness name) -> its header under include/tapkee/methods/
 METHOD_HEADERS = {
     "klle": "kernel_locally_linear_embedding.hpp", "kltsa": "kernel_local_tangent_space_alignment.hpp",
@@ -1027,7 +1048,7 @@ def replay(ctx, case):
     stats = {}
     if kind == "embed":
         embed_runs(ctx, stats, only=case)
-        print("worst relative difference of the embedding's Gram matrix: %s" % stats.get("embed_worst_relative_gram_difference"))
+        print("worst relative difference from the single-threaded run: %s" % stats.get("embed_worst_relative_difference"))
         print("replay: property C15 %s on this input" % ("FAILS" if ctx.has_violation() else "holds"))
         return 1 if ctx.has_violation() else 0
     if kind == "run" and "region" not in case:
